@@ -1,10 +1,15 @@
 #!/bin/bash
-# usage: evalseed.sh <patch.diff> <PROP> [budget_s] [tier]   -- applies a seeded change to /repo, runs the check, reverts
+# usage: evalseed.sh <patch.diff> <PROP> [budget_s] [tier]
+# Runs the registered check of PROP against a scratch copy of /repo with the seeded change applied
+# (SIM_REPO; /repo itself and /verif/evidence are left alone, so checks running in the background
+# against /repo are not disturbed). Equivalent to: git -C /repo apply <patch>; ./simcheck check
+# <PROP>; git -C /repo checkout -- .
 set -u
-P=$1; PROP=$2; B=${3:-45}; T=${4:-quick}
-cd /repo && git diff --quiet || { echo "/repo is dirty"; exit 3; }
-git -C /repo apply "$P" || { echo "patch does not apply"; exit 3; }
-cd /verif && SIM_BUDGET_S=$B ./simcheck check $PROP --tier $T 2>&1 | cut -c1-500 | tail -6
+P=$(readlink -f "$1"); PROP=$2; B=${3:-45}; T=${4:-quick}
+D=$(mktemp -d /tmp/evalseed.XXXXXX)
+trap 'rm -rf "$D"' EXIT
+rsync -a --exclude .git /repo/ "$D/repo/"
+( cd "$D/repo" && git apply "$P" ) || { echo "patch does not apply"; exit 3; }
+cd /verif && SIM_REPO="$D/repo" SIM_EVIDENCE_DIR="$D/evidence" SIM_BUDGET_S=$B ./simcheck check $PROP --tier $T 2>&1 | cut -c1-500 | tail -6
 rc=${PIPESTATUS[0]}
-git -C /repo checkout -- . ; git -C /repo clean -fdq ; git -C /repo status --short
 echo "check-exit=$rc"
